@@ -115,6 +115,35 @@ fn check_on(db: &anything::Db, c: &Lookup, session: &'static str) -> CaseReport 
     CaseReport::pass(format!("{} [{}]", q, session), c.words.len() >= 2, classes)
 }
 
+/// Two constants asked for in ONE query (`(words of one) (words of the other)`): each root expression must
+/// return what it returns alone — same value, unit and described constant.
+fn check_pair(a: &[String], b: &[String]) -> CaseReport {
+    let db = shared_db();
+    let (qa, qb) = (a.join(" "), b.join(" "));
+    let q = format!("({}) ({})", qa, qb);
+    let alone = |t: &str| run_full(db, t, true).ok().map(|r| (results_json(&r.results), r.descs.iter().map(|d| format!("{}|{}|{:?}|{:?}", d.description, d.value, d.unit, d.tokens)).collect::<Vec<_>>()));
+    let (ea, eb) = match (alone(&qa), alone(&qb)) {
+        (Some(x), Some(y)) => (x, y),
+        _ => return CaseReport::fail(&q, "panic", json!({"query": q})),
+    };
+    let both = match run_full(db, &q, true) {
+        Ok(r) => r,
+        Err(p) => return CaseReport::fail(&q, "panic", json!({"query": q, "panic": p})),
+    };
+    let got_results = results_json(&both.results);
+    let want_results = json!([ea.0[0], eb.0[0]]);
+    let got_descs: Vec<String> = both.descs.iter().map(|d| format!("{}|{}|{:?}|{:?}", d.description, d.value, d.unit, d.tokens)).collect();
+    let mut want_descs = ea.1.clone();
+    want_descs.extend(eb.1.clone());
+    if ea.0.as_array().map(|x| x.len()) != Some(1) || eb.0.as_array().map(|x| x.len()) != Some(1) {
+        return CaseReport::pass(&q, false, vec!["pair(skipped: not a single result alone)"]);
+    }
+    if got_results != want_results || got_descs != want_descs {
+        return CaseReport::fail(&q, "constant-differs-next-to-another-in-one-query", json!({"query": q, "results": got_results, "alone": want_results, "described": got_descs, "described_alone": want_descs}));
+    }
+    CaseReport::pass(&q, true, vec!["two-constants-in-one-query"])
+}
+
 fn mix(a: u64, b: u64) -> u64 {
     let mut x = a.wrapping_mul(0x9E3779B97F4A7C15) ^ b.wrapping_add(0x7F4A7C15);
     x = (x ^ (x >> 29)).wrapping_mul(0xBF58476D1CE4E5B9);
@@ -122,7 +151,7 @@ fn mix(a: u64, b: u64) -> u64 {
 }
 
 pub fn run_check(ctx: &Ctx) {
-    ctx.set_rule("every constant of the shipped database (decoded by the harness from db/*.bin.gz) whose words are typable ([A-Za-z0-9°']+, first word not starting with a digit, no word `to`) is asked for by exactly its words joined by blanks (thorough: also every rotation, the reversal and 5 pseudo-random permutations); each against an in-memory database, the on-disk session that builds the index and reopened on-disk sessions; oracle: one value, one description whose phrase is the query, the returned constant carries every asked word, has a description, a resolvable source, its value and unit are the result, and it equals (unit ==, unit text, value, description, source) the constant the library decodes straight from the shipped file; non-trivial = at least two words; distinct by query text");
+    ctx.set_rule("every constant of the shipped database (decoded by the harness from db/*.bin.gz) whose words are typable ([A-Za-z0-9°']+, first word not starting with a digit, no word `to`) is asked for by exactly its words joined by blanks (thorough: also every rotation, the reversal and 5 pseudo-random permutations); each against an in-memory database, the on-disk session that builds the index and reopened on-disk sessions; oracle: one value, one description whose phrase is the query, the returned constant carries every asked word, has a description, a resolvable source, its value and unit are the result, and it equals (unit ==, unit text, value, description, source) the constant the library decodes straight from the shipped file; also pairs of constants as the two root expressions of one query (each with its successor and with one from afar): each answers as it does alone; non-trivial = at least two words; distinct by query text");
     let f = facts();
     if !f.undecodable.is_empty() {
         ctx.record_case("decode", CaseReport::fail("decode", "shipped-constant-does-not-decode", json!(f.undecodable)), json!({"undecodable": f.undecodable}));
@@ -152,6 +181,23 @@ pub fn run_check(ctx: &Ctx) {
     }
     ctx.exhaustive.store(true, std::sync::atomic::Ordering::Relaxed);
     ctx.put("exhaustive_scope", json!("all typable constants, own word order, against an in-memory database, the on-disk session that builds the index and reopened on-disk sessions"));
+    // pairs of constants in one query: every constant with its successor in the data, and with one from afar
+    let np = typ.len() as u64;
+    ctx.run_enum(
+        "two-constants-in-one-query",
+        np * 2,
+        |i| {
+            let a = (i / 2) as usize;
+            let b = if i % 2 == 0 { (a + 1) % typ.len() } else { (mix(i, 7) % np) as usize };
+            if a == b {
+                None
+            } else {
+                Some((typ[a].tokens.clone(), typ[b].tokens.clone()))
+            }
+        },
+        |(a, b)| check_pair(a, b),
+        |(a, b)| json!({"pair": [a, b]}),
+    );
     let per = ctx.tier.pick(12u64, 40);
     ctx.run_enum(
         "permuted-words",
@@ -187,6 +233,11 @@ pub fn run_check(ctx: &Ctx) {
 }
 
 pub fn replay(ctx: &Ctx, case: &Value) {
+    if let Some(p) = case.get("pair") {
+        let (a, b): (Vec<String>, Vec<String>) = serde_json::from_value(p.clone()).expect("pair of word lists");
+        ctx.run_list("replay", &[(a, b)], |(a, b)| check_pair(a, b), |(a, b)| json!({"pair": [a, b]}));
+        return;
+    }
     let c: Lookup = serde_json::from_value(case.clone()).expect("replay file holds a Lookup");
     ctx.run_list("replay", &[c], check, |c| to_json(c));
 }
